@@ -164,6 +164,7 @@ inductive AppOp where
   | sendPing (bs : Bytes)
   | sendClose (code : Nat) (reason : Bytes)
   | data (bs : Bytes)
+  | transportClosed                  -- the transport's close callback: `handleSessionClosed` → `onSessionClosed(sid)`
   deriving Repr
 
 def step (maxFrame : Nat) (cb : Cbs) (s : Sess) : AppOp → Sess × List Ev
@@ -172,6 +173,7 @@ def step (maxFrame : Nat) (cb : Cbs) (s : Sess) : AppOp → Sess × List Ev
   | .sendPing bs => sendStep s (.ping bs)
   | .sendClose c r => sendStep s (.close c r)
   | .data bs => onData maxFrame cb s bs
+  | .transportClosed => (erase s, [])     -- mirrors `WebSocketServer::onSessionClosed`: `_sessions.erase(sid)` (repair FC18g)
 
 def run (maxFrame : Nat) (cb : Cbs) : Sess → List AppOp → Sess × List Ev
   | s, [] => (s, [])
